@@ -7,6 +7,8 @@ import (
 	"net/url"
 	"strings"
 	"time"
+
+	"github.com/oauth2-proxy/oauth2-proxy/v7/pkg/apis/options"
 )
 
 // C08 — Authorisation rules are enforced on every request, not only at login.
@@ -19,6 +21,7 @@ func init() { vfDrivers["C08"] = &vfDriver{Run: vfC08, QuickRuns: 600} }
 
 type vfC08Case struct {
 	Store     string
+	Provider  string
 	Domains   []string
 	File      bool
 	Groups    []string
@@ -35,8 +38,8 @@ type vfC08Rules struct {
 }
 
 func (r *vfC08Rules) admits(email string, groups []string, htpasswd bool) bool {
-	if !htpasswd && !r.Email.Allows(email) {
-		return false
+	if !htpasswd && (email == "" || !r.Email.Allows(email)) {
+		return false // an identity-provider login without an e-mail address satisfies no e-mail rule
 	}
 	return vfGroupsAllow(r.Groups, groups)
 }
@@ -70,11 +73,28 @@ func vfC08(w *vfWorld) {
 		cfg.Extra = append(cfg.Extra, "--authenticated-emails-file="+emailsFile)
 	}
 	if t.Prob("c08.groups", 400) {
-		cs.Groups = [][]string{{"dev"}, {"ops", "sales"}, {"Dev"}}[t.Choice("c08.gset", 3)]
+		cs.Groups = [][]string{{"dev"}, {"ops", "sales"}, {"Dev"}, {"Admins, Platform"}, {"cn=admins,ou=groups,dc=corp", "dev"}}[t.Choice("c08.gset", 5)]
 		for _, g := range cs.Groups {
-			cfg.Extra = append(cfg.Extra, "--allowed-group="+g)
+			if !strings.Contains(g, ",") {
+				cfg.Extra = append(cfg.Extra, "--allowed-group="+g)
+			}
 		}
 	}
+	// group names with a comma cannot be written as a command-line flag (the flag parser splits there); they come from a
+	// configuration file, i.e. they are set on the loaded options. The mutator follows cs.Groups across restarts.
+	cfg.Mut = func(o *options.Options) {
+		for _, g := range cs.Groups {
+			if strings.Contains(g, ",") {
+				o.Providers[0].AllowedGroups = append([]string(nil), cs.Groups...)
+			}
+		}
+	}
+	// a provider without ID token and without groups (DigitalOcean personality): the e-mail comes from the account endpoint
+	plain := t.Prob("c08.plain", 200)
+	if plain {
+		cfg.Provider = "plain"
+	}
+	cs.Provider = cfg.Provider
 	ht := w.writeFile("htpasswd", vfSHAEntry("hank", "pw-hank")+"\n")
 	htGroups := []string{}
 	cfg.Extra = append(cfg.Extra, "--htpasswd-file="+ht, "--set-xauthrequest=true")
@@ -94,6 +114,11 @@ func vfC08(w *vfWorld) {
 		{Name: "oscar", Sub: "s-oscar", Email: "oscar@corp.example@evil.test", EmailVerified: true, Groups: []string{"ops"}},
 		{Name: "peggy", Sub: "s-peggy", Email: "PEGGY@EXAMPLE.COM", EmailVerified: true, Groups: []string{"Dev"}},
 		{Name: "victor", Sub: "s-victor", Email: "victor@deep.corp.example.com", EmailVerified: true, Groups: []string{"ops"}},
+		{Name: "erin", Sub: "s-erin", Email: "erin@example.com", EmailVerified: true, Groups: []string{"Platform"}},
+		{Name: "frank", Sub: "s-frank", Email: "frank@example.com", EmailVerified: true, Groups: []string{"Admins, Platform"}},
+		{Name: "grace", Sub: "s-grace", Email: "grace@example.com", EmailVerified: true, Groups: []string{"ou=groups", "Admins"}},
+		{Name: "heidi", Sub: "s-heidi", Email: "heidi@example.com", EmailVerified: true, Groups: []string{"cn=admins,ou=groups,dc=corp"}},
+		{Name: "nomail", Sub: "s-nomail", Email: "", EmailVerified: true, Groups: []string{"dev", "ops"}},
 	}
 	for _, u := range identities {
 		idp.AddUser(u)
@@ -120,6 +145,9 @@ func vfC08(w *vfWorld) {
 		b := w.NewBrowser(fmt.Sprintf("B%d", nb), fmt.Sprintf("198.51.100.%d:1", nb))
 		_, cb := b.Login(rep, pp+"/start?rd=%2Fapp", u.Name)
 		gs, _ := u.Groups.([]string)
+		if plain {
+			gs = nil // this provider knows no groups
+		}
 		got := cb != nil && vfSessionCookieSet(cb, cfg.CookieName)
 		want := rules().admits(u.Email, gs, false)
 		cs.Users = append(cs.Users, u.Name)
@@ -208,6 +236,12 @@ func vfC08(w *vfWorld) {
 			u := identities[t.Choice("c08.user", len(identities))]
 			if t.Prob("c08.odd", 300) {
 				u = identities[6] // the address with several @
+			}
+			if len(cs.Groups) > 0 && strings.Contains(cs.Groups[0], ",") && t.Bool("c08.commauser") {
+				u = identities[9+t.Choice("c08.commawho", 4)] // groups that are pieces of / equal to a comma-bearing name
+			}
+			if plain && t.Prob("c08.nomail", 300) {
+				u = identities[13] // the account endpoint knows no e-mail address
 			}
 			login(u)
 		}
